@@ -346,6 +346,7 @@ def run_C18(ctx, model_available=True):
 
     # (e) find_class
     builtin_names = ["FCNAgent", "Market", "IndexMarket", "TradingHaltRule", "MarketMakerAgent", "Logger", "Session"]
+    fc_history = []      # every resolution of this process so far (name, names of the registered classes)
     for i in range(150 * scale):
         regs = []
         for j in range(rng.randint(0, 4)):
@@ -355,6 +356,7 @@ def run_C18(ctx, model_available=True):
         checks += 1
         dist["findclass"] += 1
         seen.add(digest(["fc", name, [r.__name__ for r in regs]]))
+        fc_history.append([name, [r.__name__ for r in regs]])
         try:
             got = find_class(name=name, optional_class_list=regs)
         except AttributeError:
@@ -363,7 +365,7 @@ def run_C18(ctx, model_available=True):
         cands = n_builtin + sum(1 for r in regs if r.__name__ == name)
         if (got is None) != (cands != 1):
             add_v(viol("C18/find-class-not-unique-resolution", "a class name resolves to exactly one class (built-in or registered), else it is an error",
-                       {"name": name, "candidates": cands, "resolved": got is not None}, {"kind": "findclass", "name": name, "registered": [r.__name__ for r in regs]}))
+                       {"name": name, "candidates": cands, "resolved": got is not None}, {"kind": "findclass-sequence", "history": [list(h) for h in fc_history]}))
         if got is not None and got.__name__ != name:
             add_v(viol("C18/find-class-wrong-class", "resolves to the class of that name", {"name": name, "got": got.__name__}, {"kind": "findclass", "name": name}))
         ncode = {n: k for k, n in enumerate(builtin_names + ["UserA", "UserB", "UserC", "Nope"])}
@@ -372,10 +374,18 @@ def run_C18(ctx, model_available=True):
         lines.append("FINDCLASS %d %d %s %d %s" % (ncode[name], len(b), " ".join("%d %d" % x for x in b), len(r), " ".join("%d %d" % x for x in r)))
         if got is None:
             exp = "-"
-        elif got in regs:
+        elif any(x is got for x in regs):
             exp = str(200 + [k for k, x in enumerate(regs) if x is got][0])
-        else:
+        elif name in builtin_names and getattr(got, "__module__", "").startswith("pams"):
             exp = str(100 + builtin_names.index(name))
+        else:
+            # neither one of the classes registered for *this* resolution nor a built-in
+            add_v(viol("C18/find-class-resolved-to-unregistered-class",
+                       "a class name resolves to a built-in class or to one of the classes registered with this runner",
+                       {"name": name, "got": repr(got), "registered_now": [repr(x) for x in regs]},
+                       {"kind": "findclass-sequence", "history": [list(h) for h in fc_history],
+                        "note": "the same name was resolved earlier in this process with another set of registered classes"}))
+            exp = "?"
         expects.append(("findclass", exp, {"name": name, "registered": [x.__name__ for x in regs]}))
 
     # (f) legacy keys of Session.setup
@@ -477,6 +487,20 @@ def replay_C18(obj):
                 SequentialRunner(settings=copy.deepcopy(inp["config"]), prng=random.Random(0))._setup()
         except Exception as e:
             out.append({"signature": obj["signature"], "observed": {"error": "%s: %s" % (type(e).__name__, e)}})
+    elif inp["kind"] == "findclass-sequence":
+        builtin_names = ["FCNAgent", "Market", "IndexMarket", "TradingHaltRule", "MarketMakerAgent", "Logger", "Session"]
+        for name, regnames in inp["history"]:
+            regs = [type(nm, (), {"tag": j}) for j, nm in enumerate(regnames)]
+            try:
+                got = find_class(name=name, optional_class_list=regs)
+            except AttributeError:
+                got = None
+            cands = (1 if name in builtin_names else 0) + sum(1 for r in regs if r.__name__ == name)
+            ok_cls = got is None or any(x is got for x in regs) or (
+                name in builtin_names and getattr(got, "__module__", "").startswith("pams"))
+            if (got is None) != (cands != 1) or not ok_cls:
+                out.append({"signature": obj["signature"], "observed": {"name": name, "registered": regnames, "got": repr(got)}})
+                break
     elif inp["kind"] == "session":
         base = {"sessionName": 0, "iterationSteps": 3, "withOrderPlacement": True, "withOrderExecution": True, "withPrint": False}
         res = []
